@@ -194,7 +194,13 @@ pub fn obs_packet(p: &Packet, len: usize) -> Result<Pkt, ObsErr> {
 
 pub fn parse_and_observe(bytes: &[u8]) -> Result<Pkt, ObsErr> {
     let p = Packet::parse(bytes).map_err(ObsErr::Parse)?;
-    obs_packet(&p, bytes.len())
+    let first = obs_packet(&p, bytes.len())?;
+    // the views are `&self`-pure: asking the same parsed value again must give the same answers
+    let again = obs_packet(&p, bytes.len())?;
+    if first != again {
+        return Err(ObsErr::Other(format!("the accessors of one parsed value answer differently the second time: {} then {}", first.short(), again.short())));
+    }
+    Ok(first)
 }
 
 /// The expected observation for configuration `p` (what `parse_and_observe(encode(p))` must give).
